@@ -70,7 +70,7 @@ def build(config, tier):
         t_ = "f32" if w == 32 else "f64"
         ln = T.lower()
         mode = "unsafe { crate::uf::SINCOS%d_MODE = crate::uf::LAT; }" % w
-        head = mode + " let a: %s = vk::any(); let si = sp::lat2(1); let ti = sp::lat2(1); let s = <%s>::from_array(sp::f%dx2(si)); let t = <%s>::from_array(sp::f%dx2(ti));" % (t_, V, w, V, w)
+        head = mode + " let a: %s = vk::any(); vk::assume(a.is_finite()); let si = sp::lat2(1); let ti = sp::lat2(1); let s = <%s>::from_array(sp::f%dx2(si)); let t = <%s>::from_array(sp::f%dx2(ti));" % (t_, V, w, V, w)
         body = head + "\n    let l = <%s>::from_scale_angle_translation(s, a, t).to_cols_array(); let r = (<%s>::from_translation(t) * <%s>::from_angle(a) * <%s>::from_scale(s)).to_cols_array();\n    check!(%s, \"SAT == T * R * S\");" % (T, T, T, T, arr_eq("l", "r", nn))
         obs.append(Ob("c10_%s_%s_sat" % (config, ln), PROP, body, fn="%s::from_scale_angle_translation" % T, kind="lemma", solver="cadical", stubs=["sse", "uf_sin_cos%d" % w], cls="lattice",
                       tier="quick" if w == 32 else "thorough",
@@ -88,7 +88,7 @@ def build(config, tier):
         if not sse and M2 != "Mat2":
             continue
         t_ = "f32" if w == 32 else "f64"
-        body = "unsafe { crate::uf::SINCOS%d_MODE = crate::uf::LAT; } let a: %s = vk::any(); let si = sp::lat2(1); let s = <%s>::from_array(sp::f%dx2(si));\n    let l = <%s>::from_scale_angle(s, a).to_cols_array(); let r = (<%s>::from_angle(a) * <%s>::from_diagonal(s)).to_cols_array();\n    check!(%s, \"from_scale_angle == R * S\");" % (
+        body = "unsafe { crate::uf::SINCOS%d_MODE = crate::uf::LAT; } let a: %s = vk::any(); vk::assume(a.is_finite()); let si = sp::lat2(1); let s = <%s>::from_array(sp::f%dx2(si));\n    let l = <%s>::from_scale_angle(s, a).to_cols_array(); let r = (<%s>::from_angle(a) * <%s>::from_diagonal(s)).to_cols_array();\n    check!(%s, \"from_scale_angle == R * S\");" % (
             w, t_, V, w, M2, M2, M2, arr_eq("l", "r", 4))
         obs.append(Ob("c10_%s_%s_scale_angle" % (config, M2.lower()), PROP, body, fn="%s::from_scale_angle" % M2, kind="lemma", solver="cadical", stubs=["sse", "uf_sin_cos%d" % w], cls="lattice",
                       desc="%s::from_scale_angle(s, a) == from_angle(a) * from_diagonal(s) exactly" % M2))
